@@ -9,7 +9,7 @@ exchange the controller's schedule changes (version bump), an overheard fragment
 zone's, old or new version) delivered at a chosen step, and the caller's overall timeout (a real).  Per
 path: the call ends; a returned schedule is version A's or version B's - never a mixture - and agrees
 with the change counter the transfer recorded; otherwise it raised; afterwards the system-wide
-transfer lock is free and a follow-up transfer for another zone completes.
+transfer lock is free, a follow-up transfer for another zone completes, and so does a new one for the same zone.
 
 Most decisions here are free Booleans/selectors; the solver's part is the timeout-versus-progress zones
 and the bookkeeping/replay."""
@@ -250,6 +250,28 @@ def run_transfer(env, cfg):
             env.choice, env.flag = env_choice, env_flag
         obs["follow"] = res2.get("r", ("hung",))
         obs["lock_after_follow"] = tcs.zone_lock_idx
+        # ... and the same zone again: whatever became of the first transfer (answered, failed, abandoned), a new
+        # one against the now well-behaved controller does its own I/O and returns the controller's current schedule
+        if cfg["op"] == "get":
+            res3, n_before = {}, state["n"]
+
+            async def again():
+                try:
+                    res3["r"] = ("ok", await sch.get_schedule(force_io=True, timeout=30))
+                except Exception as e:  # noqa: BLE001
+                    res3["r"] = ("exc", f"{type(e).__name__}: {e}"[:80])
+
+            env.choice = lambda name, options: options[0]
+            env.flag = lambda name: False
+            try:
+                with running(loop):
+                    t3 = loop.create_task(again())
+                loop.run(until=t3, horizon=loop.time() + 60)
+            finally:
+                env.choice, env.flag = env_choice, env_flag
+            obs["again"] = res3.get("r", ("hung",))
+            obs["again_io"] = state["n"] - n_before
+            obs["cur"] = state["cur"]
     return obs
 
 
@@ -275,6 +297,10 @@ def oracle(env, cfg, obs):
     env.check(obs["lock"] is None, "C18:transfer-lock-released", info=str(obs["lock"]))
     f = obs.get("follow")
     env.check(f is not None and f[0] == "ok" and f[1] == obs["ver"]["other"]["schedule"], "C18:a-later-transfer-for-another-zone-completes", info=str(f)[:100] if f and f[0] != "ok" else None)
+    a = obs.get("again")
+    if a is not None:
+        env.check(a[0] == "ok" and a[1] == obs["ver"][obs["cur"]]["schedule"] and obs["again_io"] >= 1, "C18:a-later-transfer-for-the-same-zone-completes",
+                  info=(str(a)[:100] if a[0] != "ok" else f"io={obs['again_io']} schedule is the current one: {a[1] == obs['ver'][obs['cur']]['schedule']}"))
 
 
 def scenario(cfg):
